@@ -75,6 +75,12 @@ type World struct {
 	flushSizeBefore       int64
 	sawLowerPrioOverwrite map[string]bool
 	pendingGetRefs        int
+	faults0               int
+	FaultOps              []string // labels of the calls during which an injected fault fired
+	NeedReopen            bool     // a failed FlushRevert: contents unspecified until re-opened
+	OpenFailed            bool
+	NoRoots               bool // the file holds no root record and NewStore said so
+	DstFault              func(dst *MemFile) // arms fault injection on a CopyTo destination
 	depthObs              []depthObs
 	Aux                   *World // second store of the same process (C10)
 }
@@ -238,6 +244,7 @@ func (w *World) begin(label string, readOnly, keyOnly bool) {
 	w.valRangesOK = false
 	if w.File != nil {
 		w.File.Label = label
+		w.faults0 = w.File.FaultsHit
 	}
 	BeginOp(label)
 }
@@ -259,11 +266,25 @@ func (w *World) open(label string) {
 			w.checkLazyOpen(label, st)
 		}
 	}
+	if w.faulted(label, err, true, err != nil && st != nil) {
+		w.Closed = true
+		w.OpenFailed = true
+		return
+	}
+	if err != nil && !w.NoFile && len(w.M.Flushed) == 0 && len(w.File.Data) > 0 && strings.Contains(err.Error(), "couldn't find roots") {
+		// documented outcome for a file that holds bytes but no root record
+		// (leftovers of a Flush that never completed): nothing to continue with
+		w.logf("%s=no-roots", label)
+		w.Closed = true
+		w.NoRoots = true
+		return
+	}
 	if err != nil || st == nil {
 		w.Fail("model", "open-failed", "%s failed: %v", label, err)
 		w.Closed = true
 		return
 	}
+	w.OpenFailed = false
 	w.St = st
 	w.Closed = false
 	w.Colls = map[string]*gkvlite.Collection{}
@@ -383,6 +404,9 @@ func (w *World) SetItem(name string, key []byte, prio int32, val []byte) {
 		it.Val = append([]byte{}, val...)
 	}
 	err := c.SetItem(it)
+	if w.faulted(label, err, true, false) {
+		return
+	}
 	w.logf("%s=%s", label, errs(err))
 	mc := w.M.Cur.Colls[name]
 	if !validItem(key, val, prio) {
@@ -437,6 +461,9 @@ func (w *World) Delete(name string, key []byte) {
 	w.begin(label, false, true)
 	w.Trans++
 	was, err := c.Delete(key)
+	if w.faulted(label, err, true, was) {
+		return
+	}
 	w.logf("%s=%v,%s", label, was, errs(err))
 	mc := w.M.Cur.Colls[name]
 	_, present := mc.Items[string(key)]
@@ -486,6 +513,9 @@ func (w *World) getItemOn(st *gkvlite.Store, c *gkvlite.Collection, mc *RColl, n
 	w.begin(label, true, !withValue)
 	w.Trans++
 	it, err := c.GetItem(key, withValue)
+	if w.faulted(label, err, true, it != nil) {
+		return
+	}
 	if err != nil {
 		w.Fail("model", "lookup-error", "%s returned error %v", label, err)
 		return
@@ -512,6 +542,9 @@ func (w *World) Get(name string, key []byte) {
 	w.begin(label, true, false)
 	w.Trans++
 	v, err := c.Get(key)
+	if w.faulted(label, err, true, v != nil) {
+		return
+	}
 	w.logf("%s=%s,%s", label, vstr(v), errs(err))
 	if err != nil {
 		w.Fail("model", "lookup-error", "%s returned error %v", label, err)
@@ -545,6 +578,10 @@ func (w *World) Flush() {
 	_ = mark
 	before := StoreSize(w.St)
 	err := w.St.Flush()
+	if w.faulted(label, err, true, false) {
+		w.File.LogOn = false
+		return
+	}
 	w.logf("%s=%s", label, errs(err))
 	if w.NoFile {
 		if err == nil {
@@ -697,6 +734,9 @@ func (w *World) Evict(name string) {
 	w.begin(label, true, true)
 	w.Trans++
 	n := c.EvictSomeItems()
+	if w.faulted(label, nil, false, false) {
+		return
+	}
 	cnt, _ := w.M.Cur.Colls[name].Totals()
 	if n > cnt {
 		w.Fail("model", "evict-count", "%s evicted %d items of %d", label, n, cnt)
@@ -770,6 +810,10 @@ func (w *World) Revert() {
 	w.closeIters()
 	err := w.St.FlushRevert()
 	w.revertOK = false
+	if w.faulted(label, err, true, false) {
+		w.NeedReopen = true
+		return
+	}
 	w.logf("%s=%s", label, errs(err))
 	if w.NoFile {
 		if err == nil {
@@ -1258,4 +1302,25 @@ func (w *World) checkLazyOpen(label string, st *gkvlite.Store) {
 			}
 		}
 	}
+}
+
+// faulted reports whether an injected fault fired during the call in progress
+// and, if so, checks the C07 contract for the call: an error is returned (when
+// the entry point has an error result) and no data comes with it.
+func (w *World) faulted(label string, err error, hasErr bool, gotData bool) bool {
+	if w.File == nil || w.File.FaultsHit == w.faults0 {
+		return false
+	}
+	w.faults0 = w.File.FaultsHit
+	w.FaultOps = append(w.FaultOps, label)
+	lf := w.File.LastFault
+	what := fmt.Sprintf("%s call #%d (offset %d, %d bytes, %d applied)", map[string]string{"R": "ReadAt", "W": "WriteAt", "S": "Stat", "T": "Truncate"}[lf.Op], lf.Seq, lf.Off, lf.Len, len(lf.Data))
+	if hasErr && err == nil {
+		w.Fail("fault", "swallowed-in-"+opKind(label), "%s reported success although the file failed %s", label, what)
+	}
+	if gotData {
+		w.Fail("fault", "data-with-error-in-"+opKind(label), "%s returned data alongside the failure of %s", label, what)
+	}
+	w.logf("%s=FAULT", label)
+	return true
 }
